@@ -132,11 +132,11 @@ def run(ctx):
     fam = schemas.family()
     n_s = ctx.budget(30, 80)
 
-    def history(info, d, docs, kinds, nops):
+    def history(info, d, docs, kinds, nops, forced=None):
         tr = Transform(d)
         log = []
-        for _ in range(nops):
-            name, args, thunk = ops.plan_op(rng, info, tr.doc, docs, kinds)
+        for i in range(len(forced) if forced is not None else nops):
+            name, args, thunk = forced[i] if forced is not None else ops.plan_op(rng, info, tr.doc, docs, kinds)
             snap = (len(tr.steps), len(tr.docs), len(tr.mapping.maps), tr.doc)
             st, val, added = ops.run_op(tr, thunk)
             log.append(ops.describe(name, args) | {"outcome": st, "steps_added": added})
@@ -312,6 +312,18 @@ def run(ctx):
                                 ctx.violation("history-undo", "applying the inverted steps in reverse order does not restore the starting document",
                                               {"schema": info.name, "doc": dd[1].to_json(), "ops": ["aimed same-type marks"], "steps": [x.to_json() for x in trm.steps],
                                                "culprit": k, "step": s_.to_json(), "culprit_doc": trm.docs[k].to_json(), "detail": "order of same-type marks"})
+            # aimed: `wrap` called directly with a *leaf* wrapper type (find_wrapping never proposes one).  Where the parent
+            # takes the leaf before the range the operation goes through — it inserts the leaf, structure flag set — and
+            # its inverse refuses to delete the leaf again: an instance of finding C04-structure-inverse emitted by a
+            # library operation (theorem `wrapGuard_family` carries the hypothesis "no wrapper of a leaf type")
+            leafs = [t for t in schema.nodes.values() if t.is_leaf and not t.is_text and not t.is_inline]
+            if leafs and rng.random() < 0.5:
+                brs = ops.block_ranges(d)
+                if brs:
+                    br, lt = rng.choice(brs), rng.choice(leafs)
+                    wr = [ops.NodeTypeWithAttrs(lt, gen.gen_attrs(rng, lt))]
+                    ctx.count("aimed-leaf-wrap")
+                    history(info, d, docs, None, 1, forced=[("wrap", [br.start, br.end, br.depth, wr], lambda tr: tr.wrap(br, wr))])
             # structural-only histories (split / join / lift / wrap / retyping): the steps `opHistory_undo` discharges
             history(info, d, docs, ops.STRUCT_OPS + ["set_node_markup", "set_block_type"], rng.randint(1, 4))
             # mark-only histories (wide ranges over mixed marked / unmarked inline content)
